@@ -14,6 +14,9 @@ def build_custom(name, v, out, log, REPO, ROOT, sh, tree_hash, repo_hash):
     steps = [["cmake", "-G", "Ninja", "-S", REPO, "-B", cm, "-DCMAKE_BUILD_TYPE=RelWithDebInfo", "-DMI_BUILD_TESTS=OFF"],
              ["cmake", "--build", cm, "--target", "mimalloc", "mimalloc-obj-target"]]
     src = os.path.join(ROOT, "harness", "ovr", "ovr_prog.cc"); obj = os.path.join(cm, "mimalloc.o")
+    # the copy step that produces mimalloc.o only has an order dependency on the object target: an incremental build would keep a stale copy
+    if os.path.exists(obj):
+        os.unlink(obj)
     steps += [["gcc", "-x", "c", "-DOVR_C", "-O1", "-g", "-w", src, "-o", os.path.join(out, "ovr_c_dyn"), "-ldl"],
               ["g++", "-O1", "-g", "-w", src, "-o", os.path.join(out, "ovr_cpp_dyn"), "-ldl"],
               ["sh", "-c", "gcc -x c -DOVR_C -O1 -g -w -c %s -o %s/ovr_c.o && gcc -rdynamic -o %s/ovr_c_static %s %s/ovr_c.o -lpthread -ldl" % (src, out, out, obj, out)],
